@@ -209,7 +209,7 @@ struct S3Dims {
   std::vector<int> topos, atypes, dts, ncs, vss, poskinds, methods, speeds, preds, quants;
 };
 
-void add_s3(mc::Runner &R, const std::string &name, S3Dims D, bool quick, bool thorough) {
+void add_s3(mc::Runner &R, const std::string &name, S3Dims D, bool quick, bool thorough, bool skip_32bit_extremes = false) {
   mc::Radix rx{2, (uint64_t)D.preds.size(), (uint64_t)D.speeds.size(), (uint64_t)D.methods.size(), (uint64_t)D.quants.size(),
                (uint64_t)D.poskinds.size(), (uint64_t)D.vss.size(), (uint64_t)D.ncs.size(), (uint64_t)D.dts.size(),
                (uint64_t)D.atypes.size(), 2, (uint64_t)D.topos.size()};
@@ -228,6 +228,9 @@ void add_s3(mc::Runner &R, const std::string &name, S3Dims D, bool quick, bool t
     const bool per_corner = d[10] == 1;
     const Topo t = s3_topo(D.topos[d[11]]);
     if (quant > 0 && dt != DT_FLOAT32) return false;  // quantization only applies to float attributes
+    // The recorded finding class "32-bit attribute spanning the type extremes" aborts the worker in most cases
+    // (UBSan); it is explored in the smaller S3 space only, which both tiers run.
+    if (skip_32bit_extremes && (dt == DT_INT32 || dt == DT_UINT32) && vs == 1) return false;
     GeomDef g;
     g.is_mesh = true;
     const int k = gs::num_ids(t);
@@ -293,7 +296,7 @@ void add_s3(mc::Runner &R, const std::string &name, S3Dims D, bool quick, bool t
   };
   s.describe = [=](uint64_t idx) {
     S3Case k;
-    if (!make(idx, &k)) return std::string("not applicable (quantization of a non-float attribute)");
+    if (!make(idx, &k)) return std::string("not applicable (quantization of a non-float attribute, or 32-bit type extremes in the large space)");
     return text(k.g) + " " + text(k.c);
   };
   R.add(s);
@@ -552,8 +555,8 @@ int main(int argc, char **argv) {
     t.topos = {0, 1, 2, 3}; t.atypes = {0, 1, 2, 3}; t.dts = {0, 1, 2, 3, 4, 5, 6}; t.ncs = {1, 2, 3, 4, 5}; t.vss = {0, 1, 2, 3};
     t.poskinds = {0, 1, 2}; t.methods = {0, 2, 3}; t.speeds = {0, 5, 10}; t.preds = {0, 1, 2, 3, 4, 5, 6, 7}; t.quants = {0, 8, 30};
     if (asan) {
-      add_s3(R, "asan_S3_quick", q, true, false);
-      add_s3(R, "asan_S3", t, false, true);
+      add_s3(R, "asan_S3_quick", q, true, true);
+      add_s3(R, "asan_S3", t, false, true, true);
       add_s4(R, "asan_S4_N3", 3, {0, 4, 10}, true, false);
       add_s4(R, "asan_S4_N4", 4, {0, 1, 2, 3, 4, 5, 6, 7, 8, 9, 10}, false, true);
       add_s5(R, "asan_S5", false, true, false);
